@@ -1,5 +1,6 @@
 import os
 from abc import ABCMeta
+from fractions import Fraction
 
 from rtamt.semantics.abstract_discrete_time_online_interpreter import AbstractDiscreteTimeOnlineInterpreter
 from rtamt.semantics.abstract_dense_time_online_interpreter import AbstractDenseTimeOnlineInterpreter
@@ -301,6 +302,9 @@ class AbstractOnlineSpecification(AbstractSpecification):
 
     # forwarding pastify
     def pastify(self):
+        if isinstance(self.online_interpreter, AbstractDiscreteTimeOnlineInterpreter) and hasattr(self.pastifier, 'step'):
+            # one step of next / s_next lasts one sampling period
+            self.pastifier.step = Fraction(self.online_interpreter.get_sampling_period()) / self.ast.U[self.ast.unit]
         self.ast = self.pastifier.pastify(self.ast)
 
     # forwarding to interpreter
